@@ -123,9 +123,14 @@ type txOut struct {
 }
 
 func (h *hw) assemble(auth []string, ins []outpoint, outs []txOut, pre *world.PreExecResult) *pb.Transaction {
+	return h.assembleAs(dInitiators[0], auth, ins, outs, pre)
+}
+
+// assembleAs: the initiator string is ini's, signed by ini's key (Part D).
+func (h *hw) assembleAs(ini initSpec, auth []string, ins []outpoint, outs []txOut, pre *world.PreExecResult) *pb.Transaction {
 	h.seq++
 	tx := &pb.Transaction{Version: 3, Nonce: fmt.Sprintf("c11-%d", h.seq), Timestamp: int64(h.seq)}
-	tx.Initiator = world.Addr("D")
+	tx.Initiator = ini.real()
 	req, keys := authRequire(auth)
 	tx.AuthRequire = req
 	for _, in := range ins {
@@ -149,7 +154,7 @@ func (h *hw) assemble(auth []string, ins []outpoint, outs []txOut, pre *world.Pr
 	if err != nil {
 		panic(err)
 	}
-	tx.InitiatorSigns = []*protos.SignatureInfo{sign("D", digest)}
+	tx.InitiatorSigns = []*protos.SignatureInfo{sign(ini.signer, digest)}
 	for _, k := range keys {
 		tx.AuthRequireSigns = append(tx.AuthRequireSigns, sign(k, digest))
 	}
@@ -249,7 +254,7 @@ func buildSnap(initial string) (*snap, error) {
 	vhook.Capture()
 	defer vhook.Discard()
 	cfg := histConfig()
-	w, err := world.New(cfg, bindHook)
+	w, err := world.New(cfg, fixtureHook)
 	if err != nil {
 		core.HarnessError("c11: world: %v", err)
 	}
@@ -326,7 +331,7 @@ func buildSnap(initial string) (*snap, error) {
 }
 
 func (s *snap) open() *hw {
-	w, err := world.Open(s.cfg, s.space.Clone(), bindHook)
+	w, err := world.Open(s.cfg, s.space.Clone(), fixtureHook)
 	if err != nil {
 		core.HarnessError("c11: reopen snapshot: %v", err)
 	}
